@@ -1,8 +1,8 @@
 #!/bin/bash
-# usage: soak.sh <tier> <seed>... -- run every registered check once per seed; print one line per (check, seed)
+# usage: [CHECKS='C03 C11'] soak.sh <tier> <seed>... -- run every registered check once per seed; print one line per (check, seed)
 tier=$1; shift
 for s in "$@"; do
-  for c in C01 C02 C03 C05 C06 C08 C09 C10 C11 C13 C14 C16 C17 C18 C19 C20; do
+  for c in ${CHECKS:-C01 C02 C03 C05 C06 C08 C09 C10 C11 C13 C14 C16 C17 C18 C19 C20}; do
     out=$(VERIF_SEED=$s /venv/bin/python -m sim check $c --tier $tier 2>&1 | grep -v WARNING)
     rc=$?
     line=$(echo "$out" | grep "^\[sim\] $c $tier:" | tail -1)
